@@ -111,6 +111,7 @@ def write_replay(pid, oid, payload):
 
 def check_property(pid, tier, seed, jobs=None):
     t_start = time.time()
+    os.environ["VERIF_TIER"] = tier  # contract modules may size their variant lists by tier
     load_all_contracts()  # callee contracts of other properties are needed at call sites
     mod = property_module(pid)
     run = Run(pid, tier, seed)
